@@ -315,7 +315,16 @@ class Gen:
         r = self.r
         self.note('fault')
         d = depth + 1
-        k = r.choice(['unbound', 'arity-native', 'arity-lambda', 'type', 'badop', 'special', 'params', 'twofaults', 'signal'])
+        k = r.choice(['unbound', 'arity-native', 'arity-lambda', 'type', 'badop', 'special', 'params', 'twofaults', 'signal', 'arity-and-operand', 'arity-and-operand'])
+        if k == 'arity-and-operand':
+            # a call with the wrong NUMBER of operands one of which signals (or has an effect): the operands come first —
+            # the operand's signal is the outcome, the arity is looked at only when every operand has a value
+            bad = self.fault(ty, scope, d) if r.random() < 0.5 else r.choice(['(car 5)', 'nope', "(add 'a 1)", "(signal 'from-operand)"])
+            fn = r.choice(['(lambda (x) x)', '(lambda (x y) x)', '(lambda () 1)', '(lambda (x & r) r)', '(lambda (x y & r) r)', 'cons', 'car', 'add'])
+            shape = r.choice(['too-many', 'too-few', 'second'])
+            if shape == 'too-many': return f'({fn} 1 2 3 {bad})'
+            if shape == 'too-few': return f'({fn} {bad})' if fn not in ('(lambda () 1)', 'car', '(lambda (x) x)', '(lambda (x & r) r)') else f'({fn} 1 {bad} 2 3)'
+            return f'({fn} {bad} 1 2 3 4)'
         if k == 'unbound': return r.choice(['undefined-variable-q', 'zzz', 'p0'])
         if k == 'arity-native': return r.choice([f'(add {self.small_int()})', '(cons 1)', '(car)', '(car 1 2)', '(add 1 2 3)', "(= 1)", '(list-x 1)'])
         if k == 'arity-lambda':
